@@ -134,4 +134,58 @@ theorem C03_fault_independent_all (E : Env) (fails' : Nat → Bool) (hs : E.stri
   have b := C01_exact_all_iff { E with fails := fails' } hs g fuel' q r h3 h4
   exact b.trans a.symm
 
+/-! ### `Engine.BatchCheck`
+
+One check per entry, results at the index of the entry. The entries run side by side and share the
+storage, so which storage operations fail for which entry depends on the schedule: the model gives
+every entry its OWN fault oracle (`fs`, any list), which covers every schedule and every position,
+kind and number of failing operations of the batch. -/
+
+/-- `Engine.BatchCheck` (internal/check/engine.go). -/
+def batchCheck (E : Env) (g : Int) (fuel : Nat) (r : Int) : List (Tuple × (Nat → Bool)) → List Res
+  | [] => []
+  | (q, f) :: rest => (check { E with fails := f } g fuel q r).1 :: batchCheck E g fuel r rest
+
+/-- One result per entry, in request order. -/
+theorem C03_batch_length (E : Env) (g : Int) (fuel : Nat) (r : Int) (es : List (Tuple × (Nat → Bool))) :
+    (batchCheck E g fuel r es).length = es.length := by
+  induction es with
+  | nil => rfl
+  | cons e es ih => obtain ⟨q, f⟩ := e; simp [batchCheck, ih]
+
+/-- Entry `i` of the batch is the check of entry `i` (under that entry's faults) - never another
+    entry's answer. -/
+theorem C03_batch_pointwise (E : Env) (g : Int) (fuel : Nat) (r : Int) (es : List (Tuple × (Nat → Bool)))
+    (i : Nat) (h : i < es.length) :
+    (batchCheck E g fuel r es)[i]? = some (check { E with fails := es[i].2 } g fuel es[i].1 r).1 := by
+  induction es generalizing i with
+  | nil => cases h
+  | cons e es ih =>
+    obtain ⟨q, f⟩ := e
+    cases i with
+    | zero => simp [batchCheck]
+    | succ j =>
+      have hj : j < es.length := by simpa using h
+      simpa [batchCheck] using ih j hj
+
+/-- Whatever fails wherever in the batch: an entry that carries an error is never `isMember`, and an
+    entry without error and limit event answers exactly the semantics of ITS relationship on the
+    fault-free store (all configurations, `!` included). -/
+theorem C03_batch_entries (E : Env) (hs : E.strict = true → conforms E.cfg E.T = true) (g : Int) (fuel : Nat) (r : Int)
+    (es : List (Tuple × (Nat → Bool))) (i : Nat) (h : i < es.length) :
+    ∃ res W, (batchCheck E g fuel r es)[i]? = some res ∧
+      (res, W) = check { E with fails := es[i].2 } g fuel es[i].1 r ∧
+      (res.err.isSome → res.memb ≠ .isMember) ∧
+      (res.err = none → W.limitHits = 0 → (res.memb = .isMember ↔ Tr E.cfg E.T es[i].1)) := by
+  refine ⟨(check { E with fails := es[i].2 } g fuel es[i].1 r).1, (check { E with fails := es[i].2 } g fuel es[i].1 r).2,
+    C03_batch_pointwise E g fuel r es i h, rfl, ?_, ?_⟩
+  · exact C03_error_never_member { E with fails := es[i].2 } g fuel es[i].1 r
+  · exact C03_fault_answer_exact_all { E with fails := es[i].2 } hs g fuel es[i].1 r
+
+-- non-vacuity: a batch of two entries on the example of C01, the second one with every storage
+-- operation failing: the first entry is allowed, the second carries the error and is not
+example :
+    batchCheck (C03ex.env 0) 5 200 0 [(C03ex.q, fun _ => false), (C03ex.q, fun _ => true)]
+      = [Res.isM, Res.error .storage] := by decide
+
 end Keto
